@@ -69,6 +69,16 @@ def main():
             sigs = re.findall(r"signature=(\S+)", o)
             res["checks"][c] = {"rc": rc, "violations": len(re.findall(r"^VIOLATION", o, re.M)), "signatures": sigs[:6],
                                 "inconclusive": re.findall(r"^INCONCLUSIVE.*", o, re.M)[:3]}
+            if "--replay-test" in args and rc == 1:
+                # every replay file must reproduce the violation on the changed tree and be silent on the unchanged one
+                paths = re.findall(r"^VIOLATION property=\S+ replay=(\S+)", o, re.M)[:4]
+                rt = []
+                for pth in paths:
+                    r1, o1 = sh([os.path.join(VERIF, "bin", "check"), c, tier, "--replay", pth], cwd=VERIF, env=env, timeout=900)
+                    r0, o0 = sh([os.path.join(VERIF, "bin", "check"), c, tier, "--replay", pth], cwd=VERIF, env=dict(os.environ, SPV_OUT=out), timeout=900)
+                    rt.append({"replay": os.path.basename(pth), "rc_changed_tree": r1, "rc_unchanged_tree": r0,
+                               "tail": (o1[-300:] if r1 != 1 else "") + (o0[-300:] if r0 != 0 else "")})
+                res["checks"][c]["replay_test"] = rt
         res["caught_by"] = sorted(c for c, v in res["checks"].items() if v["rc"] == 1)
         print(json.dumps(res))
     finally:
